@@ -75,6 +75,12 @@ Proof.
   - right; eapply in_cremove; eauto.
 Qed.
 
+Lemma prev_read_cases q d : prev_read q d = d \/ In (prev_read q d) (q_reads q).
+Proof.
+  unfold prev_read. induction (q_reads q) as [|x l IH]; simpl; auto.
+  destruct l; [right; auto|]. destruct IH as [IH|IH]; [left|right]; auto.
+Qed.
+
 (* ------------------------------------------------------------ step inversion *)
 Ltac dmatch H :=
   repeat match type of H with
@@ -89,7 +95,15 @@ Ltac inv_step H :=
   (match type of H with (match ?x with Some _ => _ | None => _ end) = _ => destruct x eqn:HS; [|discriminate] end);
   inversion H; subst; clear H;
   [ unfold q_step in HS | unfold r_step, r_begin in HS | unfold l_step in HS | unfold e_step in HS ];
-  dmatch HS; try discriminate; inversion HS; subst; clear HS.
+  dmatch HS; try discriminate; inversion HS; subst; clear HS;
+  repeat match goal with
+  | |- context [prev_read ?q ?d] =>
+      let E := fresh "PE" in let g := fresh "pg" in
+      destruct (prev_read_cases q d) as [E|E]; [rewrite E in * | remember (prev_read q d) as g]
+  | H : context [prev_read ?q ?d] |- _ =>
+      let E := fresh "PE" in let g := fresh "pg" in
+      destruct (prev_read_cases q d) as [E|E]; [rewrite E in * | remember (prev_read q d) as g]
+  end.
 
 Ltac split_upd :=
   repeat match goal with
